@@ -67,7 +67,8 @@ def build_graph(case):
     G = nx.Graph()
     for v, row in case["jd"]:
         G.add_node(v)
-        G.nodes[v][NN.JOINT_DEGREE] = tuple(row)
+        # the annotation is a sequence of ints: tuples from the library's generators, lists from hand-built / loaded networks
+        G.nodes[v][NN.JOINT_DEGREE] = list(row) if case.get("jd_type") == "list" else tuple(row)
     for a, b, t in case["edges"]:
         G.add_edge(a, b)
         G.edges[a, b][NN.TOPOLOGY] = t
